@@ -18,6 +18,7 @@ Definition src_reducer_Lithium_init : string := "def __init__(self) -> None:
     self.temp_file_count = 1
     self.testcase_written = False"%string.
 Definition src_reducer_Lithium_run : string := "def run(self) -> int:
+    self.testcase_written = False
     if hasattr(self.condition_script, 'init'):
         cast(Any, self.condition_script).init(self.condition_args)
     try:
